@@ -129,6 +129,9 @@ def run(prog: Program, res: Result, tier: str) -> None:
         f = prog.func(S, fname)
         _lane_rule(prog, res, f, name)
 
+    # ---- R5 sibling symmetry inside the double-sided estimator ------------------------------------------------------
+    check_doublemad_symmetry(prog, res, "R5")
+
     # ---- R4 keepdims re-expansion -------------------------------------------------------------------------------
     src = norm(es.node)
     ok = "if axis is None: result = np.expand_dims(result, axis=tuple(range(data.ndim)))" in src and "else: result = np.expand_dims(result, axis=axis)" in src \
@@ -139,6 +142,39 @@ def run(prog: Program, res: Result, tier: str) -> None:
     res.floor("R2", 2)
     res.floor("R3", 9)
     res.floor("R4", 2)
+    res.floor("R5", 3)
+
+
+def check_doublemad_symmetry(prog: Program, res: Result, rule: str) -> None:
+    """In _scale_doublemad every statement defining a *_left quantity must have a *_right twin that is its mirror image
+    (left <-> right, <= <-> >=); the final select is where(data < loc, left, right).  Shared with C16 (method 'mad')."""
+    f = prog.func(S, "_scale_doublemad")
+    defs: dict[str, list[str]] = {}
+    for st in body_walk(f.node):
+        if isinstance(st, ast.Assign) and len(st.targets) == 1 and isinstance(st.targets[0], ast.Name):
+            defs.setdefault(st.targets[0].id, []).append(norm(st.value))
+
+    def mirror(txt: str) -> str:
+        return txt.replace("left", "\0").replace("right", "left").replace("\0", "right").replace("<=", "\1").replace(">=", "<=").replace("\1", ">=")
+    lefts = sorted(k for k in defs if "left" in k)
+    if len(lefts) < 2:
+        raise AnalysisError("_scale_doublemad: no *_left quantities found")
+    for k in lefts:
+        kr = mirror(k)
+        key = f"doublemad:mirror:{k}"
+        if kr not in defs or len(defs[kr]) != len(defs[k]):
+            res.bad(rule, f, f.node, f"`{k}` has no matching `{kr}` definition(s)", construct=k, key=key)
+            continue
+        bad = [(a, b) for a, b in zip(defs[k], defs[kr]) if mirror(a) != b]
+        if bad:
+            res.bad(rule, f, f.node, f"`{kr}` is not the mirror image of `{k}`: `{bad[0][1][:110]}` vs expected `{mirror(bad[0][0])[:110]}` - one side of the "
+                    f"double MAD is computed from the other side's deviations", construct=k, key=key)
+        else:
+            res.ok(rule, f, f.node, f"`{kr}` mirrors `{k}` ({len(defs[k])} definition(s))", construct=k, key=key)
+    rets = [s for s in body_walk(f.node) if isinstance(s, ast.Return)]
+    ok = len(rets) == 1 and norm(rets[0].value) == "np.where(data < loc, mad_left, mad_right)"
+    (res.ok if ok else res.bad)(rule, f, rets[0] if rets else f.node, "each sample is scaled by the MAD of its own side of the median" if ok else
+                                "the final selection is not where(data < loc, mad_left, mad_right)", key="doublemad:select", construct="select")
 
 
 def _lane_rule(prog: Program, res: Result, f: FuncInfo, method: str) -> None:
@@ -251,6 +287,10 @@ MUTANTS = [
      "old": "        else estimate_scale(data, scale_method, axis, keepdims=True)", "new": "        else estimate_scale(data, scale_method, None, keepdims=True)"},
 ]
 MUTANTS += [
+    {"id": "c15-doublemad-right-from-left", "file": SF, "expect": "C15.R5",
+     "old": "        np.nanmean(data_right, axis=axis, keepdims=True) / norm_aad,", "new": "        np.nanmean(data_left, axis=axis, keepdims=True) / norm_aad,"},
+    {"id": "c15-doublemad-select-swapped", "file": SF, "expect": "C15.R5",
+     "old": "    return np.where(data < loc, mad_left, mad_right)", "new": "    return np.where(data < loc, mad_right, mad_left)"},
     {"id": "c15-mad-fallback-all-lanes", "file": SF, "expect": "C15.R3",
      "old": "    is_zero_mad = np.isclose(mad, 0)\n    if np.any(is_zero_mad):\n        aad = np.mean(np.abs(data - loc), axis=axis, keepdims=True) / norm_aad\n        mad = np.where(is_zero_mad, aad, mad)\n",
      "new": "    if np.all(np.isclose(mad, 0)):\n        mad = np.mean(np.abs(data - loc), axis=axis, keepdims=True) / norm_aad\n"},
